@@ -11,10 +11,10 @@ import (
 
 // Flt is a float64 as the exact dyadic rational m*2^k.
 type Flt struct {
-	Cls string `json:"cls"` // zero | fin | inf | nan
-	N   bool   `json:"n"`
-	M   []int  `json:"m"`
-	K   int    `json:"k"`
+	Cls  string `json:"cls"` // zero | fin | inf | nan
+	N    bool   `json:"n"`
+	M    []int  `json:"m"`
+	K    int    `json:"k"`
 	Bits string `json:"bits"`
 }
 
